@@ -14,9 +14,10 @@ STRUCTS = {
                ('k', 'S', '_k', None), ('x', 'V3', '_x', 'Vector3D'),
                ('y', 'V3', '_y', 'Vector3D')],
     'Arc2S': [('c', 'V2', '_c', 'Point2D'), ('r', 'S', '_r', None),
-              ('a1', 'S', '_a1', None), ('a2', 'S', '_a2', None)],
-    'Arc3S': [('plane', 'PlaneS', '_plane', 'Plane'), ('r', 'S', '_r', None),
-              ('a1', 'S', '_a1', None), ('a2', 'S', '_a2', None)],
+              ('a1', 'S', '_a1', None), ('a2', 'S', '_a2', None),
+              ('cos_a1', 'S', '_cos_a1', None), ('sin_a1', 'S', '_sin_a1', None),
+              ('cos_a2', 'S', '_cos_a2', None), ('sin_a2', 'S', '_sin_a2', None)],
+    'Arc3S': [('plane', 'PlaneS', '_plane', 'Plane'), ('arc2d', 'Arc2S', '_arc2d', 'Arc2D')],
     'SphereS': [('center', 'V3', '_center', 'Point3D'), ('radius', 'S', '_radius', None)],
     'ConeS': [('vertex', 'V3', '_vertex', 'Point3D'), ('axis', 'V3', '_axis', 'Vector3D'),
               ('angle', 'S', '_angle', None)],
@@ -39,20 +40,7 @@ RESULT_CLASSES = {
 }
 
 
-def parse_type(t):
-    """'Opt V2' -> ('opt', 'V2'); 'Tup S V2' -> ('tup', 'S', 'V2'); nested with parens is
-    not needed so far."""
-    if isinstance(t, tuple):
-        return t
-    parts = t.split()
-    if len(parts) == 1:
-        return parts[0]
-    head = parts[0].lower()
-    if head in ('opt', 'list', 'ptlist'):
-        return (head, parse_type(' '.join(parts[1:])))
-    if head == 'tup':
-        return ('tup',) + tuple(parse_type(p) for p in parts[1:])
-    raise ValueError(t)
+from tyspec import parse_type  # noqa: E402,F401
 
 
 def lean_type(t):
@@ -73,6 +61,8 @@ def lean_type(t):
         return 'List (%s)' % lean_type(t[1])
     if t[0] == 'tup':
         return '(' + ' × '.join(lean_type(x) for x in t[1:]) + ')'
+    if t[0] == 'sum':
+        return '(Sum (%s) (%s))' % (lean_type(t[1]), lean_type(t[2]))
     raise ValueError(t)
 
 
